@@ -1177,9 +1177,12 @@ class Node:
         """Notes the end-to-end identifier of an answer, for retransmit checks."""
         message_id = (f"{conn.ident}:{message.header.hop_by_hop_identifier}:"
                       f"{message.header.end_to_end_identifier}")
-        if message_id not in self._origin_waiting_answer:
+        # looked up once: the record may be swept by the removal of the
+        # connection, on another thread, at any moment
+        record = self._origin_waiting_answer.get(message_id)
+        if record is None:
             return
-        origin_host, recv_time = self._origin_waiting_answer[message_id]
+        origin_host, recv_time = record
         process_time = time.time() - recv_time
 
         if origin_host is not None:
